@@ -9,7 +9,7 @@ Open Scope N_scope.
       forall p c, In c (collection of p) <-> (p <> None /\ parent of c = p)
    together with: collections hold no duplicates and no None, every parent attribute is loaded.
    Every primitive mutation on either side - append, insert, remove, pop, del l[i], l[i] = v, bulk
-   replacement on the collection; assignment and del on the scalar - that passes the guard (a member
+   replacement and del obj.collection on the collection; assignment and del on the scalar - that passes the guard (a member
    is never added to a collection that already holds it) preserves it.  An exception raised by the
    operation (ValueError, IndexError, AttributeError) leaves a state that satisfies it, too. *)
 Theorem c37_agree_preserved_o2m_guarded : forall s p, inv_o2m s -> guard_o2m s p = true ->
@@ -102,6 +102,18 @@ Theorem c37_agree_after_reload_o2o_refuted :
 Proof. exact reload_o2o_two_children_refuted. Qed.
 Print Assumptions c37_agree_after_reload_o2o_refuted.
 
+(* after flush + commit + load the WHOLE invariant (agreement, no duplicates, everything loaded)
+   holds for the state read back from the rows, so every guarded continuation preserves it *)
+Theorem c37_invariant_after_commit_o2m : forall rows,
+  NoDup rows -> functional_rows rows -> nonzero_rows rows -> inv_o2m (reload O2M rows).
+Proof. exact reload_inv_o2m. Qed.
+Print Assumptions c37_invariant_after_commit_o2m.
+
+Theorem c37_invariant_after_commit_m2m : forall rows,
+  NoDup rows -> nonzero_rows rows -> inv_m2m (reload M2M rows).
+Proof. exact reload_inv_m2m. Qed.
+Print Assumptions c37_invariant_after_commit_m2m.
+
 (* the recursion between listeners and attribute implementations always terminates within the fuel
    of the model, for every relationship kind and every state (duplicates, unloaded cells included) *)
 Theorem c37_fuel_sufficient : forall r p s, prim_kinded r p = true -> step_prim r p s <> OutOfFuel.
@@ -114,14 +126,14 @@ Proof. split; [apply empty_inv_o2m|apply empty_inv_m2m]. Qed.
 Example c37_ex_sequence_o2m :
   exists s, run_guarded O2M guard_o2m
     [PAppend SA 1 1; PAppend SA 1 2; PSet SB 1 2; PReplace SA 1 [3; 1]; PInsert SA 2 0 2; PPop SA 1 0;
-     PSetItem SA 1 0 3; PDel SB 2; PRemove SA 2 2] (empty_state O2M false) = Some s /\
-    coll_of s SA 1 = [3] /\ coll_of s SA 2 = [] /\ sb s 1 = CVal 0 /\ sb s 3 = CVal 1 /\ sb s 2 = CAbsent.
+     PSetItem SA 1 0 3; PDel SB 2; PRemove SA 2 2; PAppend SA 1 2; PDelColl SA 1] (empty_state O2M false) = Some s /\
+    coll_of s SA 1 = [] /\ coll_of s SA 2 = [] /\ sb s 1 = CVal 0 /\ sb s 3 = CVal 0 /\ sb s 2 = CVal 0.
 Proof. eexists. split; [vm_compute; reflexivity|]. repeat split; reflexivity. Qed.
 Example c37_ex_sequence_m2m :
   exists s, run_guarded M2M guard_m2m
-    [PAppend SA 1 1; PAppend SB 2 1; PReplace SA 1 [2; 3]; PRemove SB 3 1; PSetItem SA 1 0 1]
-    (empty_state M2M false) = Some s /\
-    coll_of s SA 1 = [1] /\ coll_of s SB 1 = [1] /\ coll_of s SB 2 = [] /\ coll_of s SB 3 = [].
+    [PAppend SA 1 1; PAppend SB 2 1; PReplace SA 1 [2; 3]; PRemove SB 3 1; PSetItem SA 1 0 1; PAppend SA 1 2;
+     PDelColl SA 1] (empty_state M2M false) = Some s /\
+    coll_of s SA 1 = [] /\ coll_of s SB 1 = [] /\ coll_of s SB 2 = [] /\ coll_of s SB 3 = [].
 Proof. eexists. split; [vm_compute; reflexivity|]. repeat split; reflexivity. Qed.
 Example c37_ex_rows : functional_rows [(1, 1); (1, 2); (2, 3)] /\ nonzero_rows [(1, 1); (1, 2); (2, 3)].
 Proof.
